@@ -44,7 +44,8 @@ PROPS["C06"] = {
     "lean_module": "LispModel.Props.C06",
     "tie_modules": ["LispModel.Tie.SyntaxPrint"],
     "engines": [{"name": "print", "quick": 20000, "thorough": 400000},
-                {"name": "reread", "quick": 15000, "thorough": 300000}],
+                {"name": "reread", "quick": 15000, "thorough": 300000},
+                {"name": "printdeep", "quick": 1, "thorough": 1, "deterministic": True}],
     "technique": "Lean 4 round-trip theorems (escape/unescape, printed tokens) + differential correspondence of PRINT/READ",
     "level_text": "Kernel-checked round-trip lemmas about the printer and reader models for all strings and all nestings; the models are tied to "
                   "printer.Pr_str and reader.Read_str by printing generated values (hostile string pool) with the real PRINT, matching the text "
@@ -98,7 +99,8 @@ PROPS["C03"] = {
     "engines": [{"name": "try", "quick": 5000, "thorough": 100000},
                 {"name": "goerr", "quick": 2000, "thorough": 40000},
                 {"name": "lerr", "quick": 3000, "thorough": 60000},
-                {"name": "errbi", "quick": 1, "thorough": 1, "deterministic": True}],
+                {"name": "errbi", "quick": 1, "thorough": 1, "deterministic": True},
+                {"name": "tryfin", "quick": 1, "thorough": 1, "deterministic": True}],
     "technique": "Lean 4 theorems about the try/catch/finally arm of the evaluator model + differential correspondence on nested try programs",
     "level_text": "Theorems: value of try = body value or handler value (returned, not re-evaluated), catch variable scoped to the handler, finally runs exactly "
                   "once on every path without changing the outcome, thrown payload unchanged through calls / builtin callbacks / nested tries; tie: generated "
@@ -125,7 +127,7 @@ PROPS["C07"] = {
     "violation_if": {"cancel": r"^HANG"},
     "lean_module": "LispModel.Props.C07",
     "engines": [{"name": "cancel", "quick": 2500, "thorough": 40000},
-                {"name": "cancelwall", "quick": 84, "thorough": 560}],
+                {"name": "cancelwall", "quick": 90, "thorough": 600}],
     "technique": "Lean 4 theorems about the poll structure of the evaluator model (every loop iteration polls first) + poll-counting context correspondence",
     "level_text": "PARTIAL: the logic is proved in poll ticks (after the cancelling poll every evaluation step returns the timeout error at once, no effect "
                   "is appended, the number of further polls is bounded by the try nesting); the tie runs real EVAL under a context whose Done() closes at the "
@@ -136,7 +138,8 @@ PROPS["C07"] = {
 PROPS["C08"] = {
     "lean_module": "LispModel.Props.C08",
     "engines": [{"name": "tail", "quick": 1200, "thorough": 20000},
-                {"name": "tailconc", "quick": 1, "thorough": 1, "deterministic": True}],
+                {"name": "tailconc", "quick": 1, "thorough": 1, "deterministic": True},
+                {"name": "afterdebug", "quick": 1, "thorough": 1, "deterministic": True}],
     "technique": "Lean 4 theorems about the EVAL-frame depth carried by the evaluator model + depth! marks compared with runtime.Callers frame counts",
     "level_text": "PARTIAL: 'no additional host stack' is proved as 'no additional EVAL activation': every tail-position construct continues the loop at the same "
                   "depth; the tie demands equality of the model's depth with the number of lisp.EVAL frames counted on the real stack at every depth! mark.",
@@ -183,7 +186,8 @@ PROPS["C20"] = {
     # the code before the repairs 2f9941a / e281c62, frozen, with the two findings proved against it: rebuilt on every run
     "tie_modules": ["LispModel.Proofs.CallBaseline"],
     "engines": [{"name": "call", "quick": 20000, "thorough": 300000},
-                {"name": "callsib", "quick": 600, "thorough": 20000}],
+                {"name": "callsib", "quick": 600, "thorough": 20000},
+                {"name": "callnil", "quick": 1, "thorough": 1, "deterministic": True}],
     "technique": "Lean 4 theorems about the model of lib/call (name derivation, bound selection, _args/_args_ctx, reflect.Call's checks, "
                  "adapters, _recover) against the binder contract + differential correspondence of call.Call/CallOverrideFN",
     "level_text": "Kernel-checked, full strength: entered <-> admissible (binder_contract), the class of the error otherwise, arguments verbatim, "
